@@ -192,7 +192,12 @@ func c06Gen(r *RNG, id string, prop string) *Case {
 	}
 	mode := r.PickStr([]string{"plain", "n", "n", "table"})
 	c.Set("measure", measure)
-	c.Set("qnames", strings.Join(randNames(r, nq, "Q"), ",")).Set("qseqs", strings.Join(qs, ","))
+	qn := randNames(r, nq, "Q")
+	if prop == "C06" && nq > 1 && r.Chance(1, 6) { // the same sample sequenced twice: two query records of one name, different sequences
+		qn[r.Intn(nq-1)+1] = qn[0]
+		c.Tag("duplicate-query-id")
+	}
+	c.Set("qnames", strings.Join(qn, ",")).Set("qseqs", strings.Join(qs, ","))
 	c.Set("tnames", strings.Join(randNames(r, nt, "T"), ",")).Set("tseqs", strings.Join(ts, ","))
 	c.SetInt("threads", r.PickInt([]int{0, 1, 2, 4, 16}))
 	k, dn, dd := 0, 0, 0
